@@ -359,6 +359,32 @@ public:
         }
         if (vd->hasInit()) {
             o["init_text"] = textOf(vd->getInit());
+            // does the initialiser mention a parameter, `this`, or another non-constant variable?
+            struct RefFinder : RecursiveASTVisitor<RefFinder>
+            {
+                bool parm = false, thisRef = false, mutableGlobal = false;
+                bool VisitDeclRefExpr(DeclRefExpr* e) {
+                    if (isa<ParmVarDecl>(e->getDecl())) {
+                        parm = true;
+                    } else if (auto* v = dyn_cast<VarDecl>(e->getDecl())) {
+                        if (v->hasGlobalStorage() && !v->isConstexpr() && !v->getType().isConstQualified()) {
+                            mutableGlobal = true;
+                        }
+                        if (v->isLocalVarDecl() && !v->isStaticLocal() && !v->isConstexpr()) {
+                            parm = true;   // a local of the enclosing call: value of this particular call
+                        }
+                    }
+                    return true;
+                }
+                bool VisitCXXThisExpr(CXXThisExpr*) {
+                    thisRef = true;
+                    return true;
+                }
+            } rf;
+            rf.TraverseStmt(const_cast<Expr*>(vd->getInit()));
+            o["init_uses_param"] = rf.parm;
+            o["init_uses_this"] = rf.thisRef;
+            o["init_uses_mutable_global"] = rf.mutableGlobal;
             // constructor arguments that fold to integers (cache capacities ...)
             const Expr* ie = vd->getInit()->IgnoreImplicit();
             if (auto* ewc = dyn_cast<ExprWithCleanups>(ie)) {
